@@ -10,7 +10,9 @@ from vlib import *
 from exprgen import *
 
 PID = 'C07'
-THEOREMS = ['C07_type_is_c11', 'C07_fold_is_c11', 'C07_fold_never_host_undefined', 'C07_nonvacuous']
+THEOREMS = ['C07_type_is_c11', 'C07_fold_is_c11', 'C07_fold_never_host_undefined', 'C07_nonvacuous',
+            # package ffold (Properties_C07_ffold.v; Flocq): the constant evaluator on floating operands
+            'C07_ffold_arith_node_partial', 'C07_ffold_neg_node_partial', 'C07_ffold_cast_to_fp_partial', 'C07_ffold_truth_partial', 'C07_ffold_static_u64_witness', 'C07_ffold_tree_nonvacuous', 'C07_ffold_cmp_nonvacuous', 'C07_ffold_tree_partial', 'C07_ffold_equals_runtime_partial', 'C07_ffold_fp_tree_nonvacuous']
 MODELRUN = os.path.join(VERIF, 'ocaml/modelrun')
 PRINTF = 'int printf(const char *, ...);\n'
 
@@ -42,7 +44,7 @@ def main():
         run.proof_broken.append('scratch build of /repo failed: ' + str(e)[-800:])
         return run.finish(dict(evaluations=0), [], [])
     wd = scratch_dir()
-    run.check_proofs(deps=['theories/Model/ConstFold.vo'])
+    run.check_proofs(deps=['theories/Model/ConstFold.vo'], extra=['ffold'])
     NCORPUS = run_corpus(run, PID, src)          # minimised past failures first
     rc, o, e = sh([os.path.join(VERIF, 'ocaml/build.sh')], timeout=900)
     if rc != 0:
@@ -178,9 +180,14 @@ def main():
             run.violation(dict(kind='undefined-division-not-diagnosed', expression=to_const_c(e), exit=rc, stderr=er[-200:],
                                replay_program='long g = %s;\n' % to_const_c(e)), dict(area='fold-div-zero'))
 
+    # ---------------- tie of package ffold: floating constant trees: static bytes = run-time bytes = Coq spec = Coq model of the folder ----------------
+    tie_dist = {}; tie_e = tie_n = 0
+    if not os.environ.get('VERIF_SKIP_PROOFS'):
+        tie_e, tie_n, tie_dist, tie_samples = run_tie(run, 'ffold', src, 300 if run.quick() else 3000, 'fold-float-operand')
     cov = dict(evaluations=evals, distinct_nontrivial=len(nontriv),
                rule='depth 1 exhaustive in structure (18 binary operators x 81 type pairs, 4 unary x 9, 81 casts, boundary values) + random trees of depth 2-%d over 9 types; each defined expression (by the Coq spec) is placed in a static initializer (value), sizeof/typeof (type), evaluated at run time on volatile operands, and every 7th in enum/array-bound/case/bit-field-width/_Alignas positions; undefined divisions must be diagnosed; non-trivial = depth >= 2 or an operand at a 32/64-bit boundary' % (4 if run.quick() else 6),
                samples=samples, input_distribution=dist, traces_validated_against_impl=len(valid))
+    cov['rule'] = cov.get('rule', '') + ' (f) package ffold: random constant trees over float / double / integer literal leaves (incl. operands that round differently at 64 and at 53 / 24 bits, and objects whose type differs from the type of the initializer): bytes of the static object = run-time bytes = Coq spec (Flocq) = Coq model of eval_double / eval2 / write_gvar_data; enum and array-bound positions for integer results'; cov['tie_ffold'] = tie_dist; cov['evaluations'] = cov.get('evaluations', 0) + tie_e; cov['distinct_nontrivial'] = len(nontriv) + tie_n
     return run.finish(cov,
         ['conversion of out-of-range values to signed types wraps and >> of negative values is arithmetic (the implementation-defined choices of gcc and chibicc)',
          'floating constant expressions are C02\'s; address constants are C05\'s'],
